@@ -898,6 +898,35 @@ theorem C05_expand_immediates_labels (pool : Pool) (ls : List Line) :
         obtain ⟨push, plain⟩ := pp
         by_cases hf : fits pool push = true <;> simp [hf, labelsOf, ih]
 
+/-- **The threshold is an index.**  With the pool numbered as `gather_constants` does, an immediate-operand
+    instruction survives `expand_immediates` exactly when its constant's pool index is at most 65535
+    (`u16::MAX`); at index 65536 (where `as u16` would wrap to 0) and beyond, and without an index, it is
+    expanded. -/
+theorem C05_expand_threshold_int (idxI : Int → Option Nat) (idxF : String → Option Nat) (i push plain : Instr)
+    (a : Ann) (imm : Int) (k : Nat) (hw : withoutImm i = some (push, plain)) (hp : push = .pushInt imm)
+    (hk : idxI imm = some k) :
+    expandImmediates (poolOfIndex idxI idxF) [.instr i a] =
+      if k ≤ 65535 then [.instr i a] else [.instr push a, .instr plain a] := by
+  subst hp
+  by_cases h : k ≤ 65535 <;> simp [expandImmediates, hw, fits, poolOfIndex, immIndexFits, hk, h]
+
+theorem C05_expand_threshold_float (idxI : Int → Option Nat) (idxF : String → Option Nat) (i push plain : Instr)
+    (a : Ann) (imm : String) (k : Nat) (hw : withoutImm i = some (push, plain)) (hp : push = .pushFloat imm)
+    (hk : idxF imm = some k) :
+    expandImmediates (poolOfIndex idxI idxF) [.instr i a] =
+      if k ≤ 65535 then [.instr i a] else [.instr push a, .instr plain a] := by
+  subst hp
+  by_cases h : k ≤ 65535 <;> simp [expandImmediates, hw, fits, poolOfIndex, immIndexFits, hk, h]
+
+/-- the boundary: indices 65534 and 65535 stay immediates, 65536 and 65537 are expanded -/
+example : immIndexFits 65535 = true ∧ immIndexFits 65536 = false := by decide
+example : expandImmediates (poolOfIndex (fun n => some n.toNat) (fun _ => none))
+    [.instr (.binIImm .add .top (.off 0) 65534) ⟨0, 1, 0⟩, .instr (.binIImm .eq .top (.off 0) 65535) ⟨0, 2, 0⟩,
+     .instr (.binIImm .ge .top (.off 0) 65536) ⟨0, 3, 0⟩, .instr (.storeOffsetImm 1 65537) ⟨0, 4, 0⟩] =
+    [.instr (.binIImm .add .top (.off 0) 65534) ⟨0, 1, 0⟩, .instr (.binIImm .eq .top (.off 0) 65535) ⟨0, 2, 0⟩,
+     .instr (.pushInt 65536) ⟨0, 3, 0⟩, .instr (.binI .ge .top (.off 0) .top) ⟨0, 3, 0⟩,
+     .instr (.pushInt 65537) ⟨0, 4, 0⟩, .instr (.storeOffset 1) ⟨0, 4, 0⟩] := by decide
+
 /-- an immediate whose constant does not fit is really expanded, one that fits is kept -/
 example : expandImmediates ⟨fun n => n != 7, fun _ => true⟩
     [.instr (.binIImm .add .top (.off 0) 7) ⟨0, 1, 0⟩, .instr (.binIImm .add .top (.off 0) 8) ⟨0, 2, 0⟩] =
